@@ -66,6 +66,10 @@ struct FnInfo<'a> {
     awaits: usize,
     depth_closure: usize,
     stmt_stack: Vec<(usize, usize)>,
+    /// spans of the closures / async blocks that enclose the current node (outermost first)
+    encl: Vec<(usize, usize)>,
+    /// T20: `async move {..}.into_actor(self)[.map(|..| ..)]*.wait(ctx)` chains
+    chains: Vec<Value>,
 }
 
 fn block_has_continue(b: &syn::Block) -> bool {
@@ -87,6 +91,75 @@ fn block_has_continue(b: &syn::Block) -> bool {
 }
 
 impl<'a> FnInfo<'a> {
+    fn encl_json(&self) -> Value {
+        Value::Array(self.encl.iter().map(|(a, b)| json!([a, b])).collect())
+    }
+    /// T20: recognise `ASYNC_BLOCK.into_actor(self)[.map(CLOSURE)]*.wait(ARG)` / `.spawn(ARG)`
+    fn actor_chain(&self, e: &syn::ExprMethodCall) -> Option<Value> {
+        let fin = e.method.to_string();
+        if fin != "wait" && fin != "spawn" {
+            return None;
+        }
+        if e.args.len() != 1 {
+            return None;
+        }
+        let mut maps: Vec<Value> = vec![];
+        let mut cur: &syn::Expr = &e.receiver;
+        loop {
+            match cur {
+                syn::Expr::MethodCall(m) if m.method == "map" && m.args.len() == 1 => {
+                    if let syn::Expr::Closure(c) = &m.args[0] {
+                        let params: Vec<Value> = c.inputs.iter().map(|p| {
+                            let (a, b) = self.src.span(p.span());
+                            json!({"start": a, "end": b, "text": &self.src.text[a..b]})
+                        }).collect();
+                        let (cs, ce) = self.src.span(c.span());
+                        let (bs, be) = self.src.span(c.body.span());
+                        maps.push(json!({"start": cs, "end": ce, "params": params, "body": {"start": bs, "end": be},
+                            "is_move": c.capture.is_some()}));
+                        cur = &m.receiver;
+                    } else {
+                        return None;
+                    }
+                }
+                syn::Expr::MethodCall(m) if m.method == "into_actor" && m.args.len() == 1 => {
+                    let (as_, ae) = self.src.span(m.args[0].span());
+                    if &self.src.text[as_..ae] != "self" {
+                        return None;
+                    }
+                    if let syn::Expr::Async(ab) = &*m.receiver {
+                        let (s, t) = self.src.span(ab.span());
+                        let (bo, bc) = self.src.span(ab.block.span());
+                        maps.reverse();
+                        let (a, b) = self.src.span(e.span());
+                        let (ws, we) = self.src.span(e.args[0].span());
+                        // every identifier token of the block (macro arguments included): a superset of what it captures
+                        let mut idents: Vec<String> = vec![];
+                        fn walk(ts: proc_macro2::TokenStream, out: &mut Vec<String>) {
+                            for tt in ts {
+                                match tt {
+                                    proc_macro2::TokenTree::Ident(i) => { let s = i.to_string(); if !out.contains(&s) { out.push(s); } }
+                                    proc_macro2::TokenTree::Group(g) => walk(g.stream(), out),
+                                    _ => {}
+                                }
+                            }
+                        }
+                        if let Ok(ts) = self.src.text[bo..bc].parse::<proc_macro2::TokenStream>() { walk(ts, &mut idents); }
+                        let btail = match ab.block.stmts.last() {
+                            Some(syn::Stmt::Expr(x, None)) => self.src.jspan(x.span()),
+                            _ => Value::Null,
+                        };
+                        return Some(json!({"start": a, "end": b, "stmt": self.cur_stmt(), "final": fin, "block_tail": btail,
+                            "final_arg": &self.src.text[ws..we],
+                            "async_block": {"start": s, "end": t, "body_open": bo, "body_close": bc - 1, "is_move": ab.capture.is_some()},
+                            "maps": maps, "encl": self.encl_json(), "idents": idents}));
+                    }
+                    return None;
+                }
+                _ => return None,
+            }
+        }
+    }
     fn cur_stmt(&self) -> Value {
         match self.stmt_stack.last() {
             Some((a, b)) => json!({"start": a, "end": b}),
@@ -109,14 +182,18 @@ impl<'a, 'ast> Visit<'ast> for FnInfo<'a> {
         let (a, b) = self.src.span(c.span());
         self.closures.push(json!({"start": a, "end": b, "is_async": c.asyncness.is_some()}));
         self.depth_closure += 1;
+        self.encl.push((a, b));
         syn::visit::visit_expr_closure(self, c);
+        self.encl.pop();
         self.depth_closure -= 1;
     }
     fn visit_expr_async(&mut self, c: &'ast syn::ExprAsync) {
         let (a, b) = self.src.span(c.span());
         self.closures.push(json!({"start": a, "end": b, "is_async_block": true}));
         self.depth_closure += 1;
+        self.encl.push((a, b));
         syn::visit::visit_expr_async(self, c);
+        self.encl.pop();
         self.depth_closure -= 1;
     }
     fn visit_expr_await(&mut self, e: &'ast syn::ExprAwait) {
@@ -147,7 +224,7 @@ impl<'a, 'ast> Visit<'ast> for FnInfo<'a> {
             "for_token": self.src.jspan(e.for_token.span()),
             "label": e.label.as_ref().map(|l| l.name.ident.to_string()),
             "has_continue": block_has_continue(&e.body),
-            "in_closure": self.depth_closure > 0,
+            "in_closure": self.depth_closure > 0, "encl": self.encl_json(),
         }));
         syn::visit::visit_expr_for_loop(self, e);
     }
@@ -161,7 +238,7 @@ impl<'a, 'ast> Visit<'ast> for FnInfo<'a> {
             "cond": self.src.jspan(e.cond.span()),
             "label": e.label.as_ref().map(|l| l.name.ident.to_string()),
             "has_continue": block_has_continue(&e.body),
-            "in_closure": self.depth_closure > 0,
+            "in_closure": self.depth_closure > 0, "encl": self.encl_json(),
         }));
         syn::visit::visit_expr_while(self, e);
     }
@@ -174,7 +251,7 @@ impl<'a, 'ast> Visit<'ast> for FnInfo<'a> {
             "body_open": bo, "body_close": bc - 1,
             "label": e.label.as_ref().map(|l| l.name.ident.to_string()),
             "has_continue": block_has_continue(&e.body),
-            "in_closure": self.depth_closure > 0,
+            "in_closure": self.depth_closure > 0, "encl": self.encl_json(),
         }));
         syn::visit::visit_expr_loop(self, e);
     }
@@ -183,8 +260,11 @@ impl<'a, 'ast> Visit<'ast> for FnInfo<'a> {
         let args: Vec<Value> = e.args.iter().map(|x| { let (s, t) = self.src.span(x.span()); json!({"start": s, "end": t}) }).collect();
         let recv = { let (rs, rt) = self.src.span(e.receiver.span()); json!({"start": rs, "end": rt}) };
         self.calls.push(json!({"name": e.method.to_string(), "start": a, "end": b, "stmt": self.cur_stmt(),
-            "in_closure": self.depth_closure > 0, "args": args, "method": true,
+            "in_closure": self.depth_closure > 0, "encl": self.encl_json(), "args": args, "method": true,
             "recv": recv}));
+        if let Some(ch) = self.actor_chain(e) {
+            self.chains.push(ch);
+        }
         syn::visit::visit_expr_method_call(self, e);
     }
     fn visit_expr_call(&mut self, e: &'ast syn::ExprCall) {
@@ -193,7 +273,7 @@ impl<'a, 'ast> Visit<'ast> for FnInfo<'a> {
                 let (a, b) = self.src.span(e.span());
                 let args: Vec<Value> = e.args.iter().map(|x| { let (s, t) = self.src.span(x.span()); json!({"start": s, "end": t}) }).collect();
                 self.calls.push(json!({"name": seg.ident.to_string(), "start": a, "end": b, "stmt": self.cur_stmt(),
-                    "in_closure": self.depth_closure > 0, "args": args, "method": false}));
+                    "in_closure": self.depth_closure > 0, "encl": self.encl_json(), "args": args, "method": false}));
             }
         }
         syn::visit::visit_expr_call(self, e);
@@ -201,7 +281,7 @@ impl<'a, 'ast> Visit<'ast> for FnInfo<'a> {
     fn visit_expr_return(&mut self, e: &'ast syn::ExprReturn) {
         let (a, b) = self.src.span(e.span());
         self.returns.push(json!({"ord": self.returns.len() + 1, "start": a, "end": b, "stmt": self.cur_stmt(),
-            "in_closure": self.depth_closure > 0}));
+            "in_closure": self.depth_closure > 0, "encl": self.encl_json()}));
         syn::visit::visit_expr_return(self, e);
     }
 }
@@ -275,6 +355,8 @@ fn sig_json(src: &Src, sig: &syn::Signature, block: Option<&syn::Block>) -> Valu
             awaits: 0,
             depth_closure: 0,
             stmt_stack: vec![],
+            encl: vec![],
+            chains: vec![],
         };
         fi.visit_block(b);
         // tail expression: last stmt is Expr without semicolon
@@ -294,6 +376,8 @@ fn sig_json(src: &Src, sig: &syn::Signature, block: Option<&syn::Block>) -> Valu
         o.insert("returns".into(), Value::Array(fi.returns));
         o.insert("calls".into(), Value::Array(fi.calls));
         o.insert("closures".into(), Value::Array(fi.closures));
+        fi.chains.sort_by_key(|c| c["start"].as_u64().unwrap_or(0));
+        o.insert("chains".into(), Value::Array(fi.chains));
         o.insert("macros".into(), Value::Array(fi.macros));
         o.insert("awaits".into(), json!(fi.awaits));
         o.insert("tail".into(), tail);
